@@ -4,7 +4,7 @@
 #   tools/mutant_run.sh --clean                          remove the scratch area
 # The scratch area lives in /tmp/mut (repo copy + harness copy with its own target dir).
 set -u
-M=/tmp/mut
+M=${MUT_DIR:-/tmp/mut}
 if [ "${1:-}" = "--clean" ]; then rm -rf "$M"; exit 0; fi
 patch=$1; id=$2; tier=${3:-quick}
 mkdir -p "$M/out"
